@@ -597,7 +597,7 @@ def solve_valid_inc(s, goal, timeout_ms):
             return "invalid", "z3-cone", (ms, md)
     smt2 = s.to_smt2()
     # a second, independent z3 build (Debian's 4.8.12 CLI): different heuristics decide many queries the 5.1 API leaves open
-    r1, m1 = _z3cli_check(smt2, max(3000, timeout_ms // 2))
+    r1, m1 = _z3cli_check(smt2, max(3000, timeout_ms))
     if r1 == "unsat":
         return "valid", "z3-4.8.12(cli)", None
     if r1 == "sat":
